@@ -14,6 +14,7 @@ theorem inv_rotRemove_core {cfg : Cfg} {s : St} {d : Disk} (h : Inv cfg s d) {j 
   rw [hj] at hok
   have hok : JobOK cfg s d j := hok
   obtain ⟨e, he⟩ := hok.edit_some (by rw [hpc]; rfl)
+  have hl : s.limbo = none := h.limbo_none_of_post hj he (by rw [hpc]; rfl)
   -- the manifest clause
   have hman := hok.manifest
   unfold JobManifestOK at hman
@@ -28,11 +29,8 @@ theorem inv_rotRemove_core {cfg : Cfg} {s : St} {d : Disk} (h : Inv cfg s d) {j 
       s.upd j' s.nextFile s.live s.stJn s.stSq (some m) true := rfl
   have hmfd' : MfdOK (s.upd j' s.nextFile s.live s.stJn s.stSq (some m) true) { d with manifests := ms } := by
     unfold MfdOK
-    show (match (some j').map (·.pc) with
-      | some (JPc.rotRemove m') => d.current = some m'
-      | _ => some m = d.current)
-    simp only [Option.map_some]
-    exact hc.symm
+    simp only [St.upd, Option.map_some]
+    exact Or.inl hc.symm
   have hlv : lastView cfg { d with manifests := ms } = lastView cfg d := by unfold lastView; rw [hcm]
   obtain ⟨mf, v0, v, hparts, hlast, hvl, hvok, hmono⟩ := h.disk.last
   have hcl : Holds d.current (· < s.nextFile) := h.cur_lt hj
@@ -48,10 +46,11 @@ theorem inv_rotRemove_core {cfg : Cfg} {s : St} {d : Disk} (h : Inv cfg s d) {j 
     have hrun := h.run hr
     apply RunOK.job_step (d' := { d with manifests := ms }) hrun j' s.nextFile s.live s.stJn s.stSq (some m) true
       (Nat.le_refl _) rfl ⟨hmfd', rfl⟩ hcl
-      (hrun.hnc_post (j' := j') hok hj hr rfl rfl (fun _ => views_refl (by rw [hlv]; exact hlast) hlast))
-    rw [hcm]
-    exact holds_of_some hparts.cur (holds_of_some hparts.hv0 (holds_of_some hparts.cur
-      (holds_of_some hparts.hv0 (Nat.le_refl _))))
+      (hrun.hnc_post (j' := j') hok hj hr rfl rfl (fun _ => ⟨rfl, rfl⟩))
+    · rw [hcm]
+      exact holds_of_some hparts.cur (holds_of_some hparts.hv0 (holds_of_some hparts.cur
+        (holds_of_some hparts.hv0 (Nat.le_refl _))))
+    · exact LimboOK.of_none hl
   · intro hr
     have hrec := h.recov hr
     refine hrec.imp (fun r hrr => ?_)
@@ -75,7 +74,7 @@ theorem inv_rotRemove_core {cfg : Cfg} {s : St} {d : Disk} (h : Inv cfg s d) {j 
       refine ⟨rfl, ?_⟩
       unfold Settled
       rw [hcm, hlv]
-      refine hman.imp (fun mf1 hmf1 => ⟨fun _ => hmf1.1, hmf1.2⟩)
+      refine hman.imp (fun mf1 hmf1 => ⟨fun _ _ => hmf1.1, hmf1.2⟩)
     · intro hb'; cases hb'
     · rw [hlv]
       exact hok.removals.imp (fun v _ => late_not_rm (j := j')
@@ -101,17 +100,30 @@ theorem inv_job_rotRemove {cfg : Cfg} {s : St} {d : Disk} (h : Inv cfg s d) {j :
   rw [he] at hman
   simp only [hpc, JobManifest] at hman
   obtain ⟨hc, hfdne, _⟩ := hman
+  have hl : s.limbo = none := h.limbo_none_of_post hj he (by rw [hpc]; rfl)
   rw [stepJob_rotRemove hpc] at hs
   simp only [Option.some.injEq, Prod.mk.injEq] at hs
   obtain ⟨rfl, rfl⟩ := hs
+  have hst : ({ s with manifestFd := some m, manifestOpen := true, manifestFailed := false, limbo := none,
+                       job := some { j with pc := .install } } : St) =
+      { ({ s with manifestFd := some m, manifestOpen := true, job := some { j with pc := .install } } : St) with
+        manifestFailed := false } := by
+    cases s
+    simp only at hl
+    simp only [hl]
+  rw [hst]
+  have hlb : ∀ b, ({ s with manifestFd := some m, manifestOpen := true, job := some { j with pc := .install } } : St).limbo.isSome = true → b = true := by
+    intro b hx
+    have : s.limbo.isSome = true := hx
+    rw [hl] at this; cases this
   cases hf : s.manifestFd with
   | none =>
     simp only
-    exact (inv_rotRemove_core h hj hpc d.manifests (fun _ _ => rfl) h.disk.mnodup).set_manifestFailed false
+    exact (inv_rotRemove_core h hj hpc d.manifests (fun _ _ => rfl) h.disk.mnodup).set_manifestFailed false (hlb _)
   | some old =>
     simp only
     refine (inv_rotRemove_core h hj hpc (d.manifests.erase old) ?_
-      (pairwise_erase _ h.disk.mnodup)).set_manifestFailed false
+      (pairwise_erase _ h.disk.mnodup)).set_manifestFailed false (hlb _)
     intro c hcc
     rw [hc] at hcc; cases hcc
     rw [lookup_erase, if_neg (fun ec => hfdne (by rw [hf, ec]))]
